@@ -7,6 +7,12 @@ from .interp import (State, Frame, Outcome, NORMAL, MAX_PATHS,
 from .terms import NONE, TRUE, FALSE, const, is_const, mentions
 
 
+def short_name(name):
+    """last two dotted components: twisted.python.log.msg -> log.msg"""
+    parts = name.split(".")
+    return ".".join(parts[-2:])
+
+
 class ExecMixin(object):
 
     # -- events ----------------------------------------------------------
@@ -269,7 +275,7 @@ class ExecMixin(object):
 
     def _benign_events(self, evs):
         for e in evs:
-            if e["k"] == "ext" and e["name"] in self.BENIGN_EXT:
+            if e["k"] == "ext" and short_name(e["name"]) in self.BENIGN_EXT:
                 continue
             return False
         return True
